@@ -1262,7 +1262,10 @@ Definition c10_ok (h : histcase) : bool :=
   no_panic t && fold_trace (rd_step h t) (mkRd true false [] 0 false) [] t
   (* "serves requests again": the new connection's well-formed stream is not answered with a reset
      (state left over from the lost connection must not be applied to the new one) *)
-  && no_false_reset h t.
+  && no_false_reset h t
+  (* a stalled connection is noticed: with a PauseTimeout every read inside the CONNACK or inside
+     a packet has a deadline (a read without one waits on the stalled connection for ever) *)
+  && (if s_pause (cfg_of h) then forallb (fun c => reads_armed c t []) (conns t) else true).
 Definition c10_run := hist_run c10_ok.
 
 (* ------------------------------------------------------------------ *)
